@@ -46,11 +46,16 @@ def cells(tier, seed):
                 continue
             if "eig" in BUILDERS[a].tags and batch:
                 continue
+            if "fixedbatch" in BUILDERS[a].tags and batch:
+                continue
             if a in ("BlockDiagDim", "TransposePermutation") and batch:
                 continue
             for g in UNARY:
                 out.append({"id": _cid("unary", a, f"b{'x'.join(map(str, batch)) or '-'}", g),
                             "params": {"group": g, "a": a, "n": 2, "batch": list(batch)}})
+    for a in ("Toeplitz", "Root", "Kronecker", "ConstantMul", "Matmul", "Sum", "Diag", "Dense", "Interpolated", "BlockDiag", "KroneckerDiag"):
+        out.append({"id": _cid("unary", a, "b2x2", "scalars2"), "params": {"group": "scalars2", "a": a, "n": 2, "batch": [2, 2]}})
+        out.append({"id": _cid("unary", a, "b2x2x2", "batch_reduce3"), "params": {"group": "batch_reduce3", "a": a, "n": 2, "batch": [2, 2, 2]}})
     for a in PSD_FOR_ROOT_OPS:
         for b in PSD_FOR_ROOT_OPS:
             if tier == "quick" and not (a in PSD_FOR_ROOT_OPS[:8] and b in PSD_FOR_ROOT_OPS[:8]):
@@ -131,6 +136,19 @@ def harness(ctx):
             neg = torch.tensor([-2.0, 0.0], dtype=torch.float64)[: batch[0]].reshape(batch[0], *([1] * (len(batch) - 1)), 1, 1)
             _try(ctx, "A*batch[-2,0]", lambda: A * neg, lambda: ra * neg)
             _try(ctx, "A/batchconst", lambda: A / cb[..., None, None], lambda: ra / cb[..., None, None])
+        return
+    if g == "scalars2":
+        # batches of constants against a two-dimensional batch: every singleton placement
+        for tag, shp in (("(2,1,1,1)", (2, 1, 1, 1)), ("(1,2,1,1)", (1, 2, 1, 1)), ("(2,2,1,1)", (2, 2, 1, 1)), ("(2,1,1)", (2, 1, 1))):
+            c = ctx.leaf("argc" + tag.replace(",", "").replace("(", "").replace(")", ""), shp)
+            _try(ctx, f"A*const{tag}", lambda c=c: A * c, lambda c=c: ra * c)
+            _try(ctx, f"const{tag}*A", lambda c=c: c * A, lambda c=c: c * ra)
+            _try(ctx, f"A/const{tag}", lambda c=c: A / c, lambda c=c: ra / c)
+        return
+    if g == "batch_reduce3":
+        for dim in (0, 1, 2, -3, -4):
+            _try(ctx, f"sum({dim})", lambda dim=dim: A.sum(dim), lambda dim=dim: ra.sum(dim))
+        _try(ctx, "sum(0).sum(0)", lambda: A.sum(0).sum(0), lambda: ra.sum(0).sum(0))
         return
     if g == "diag_ops":
         if not sq:
